@@ -3,6 +3,7 @@ import CdsVerif.Gen.Dispatch
 import CdsVerif.Driver.SeqEval
 import CdsVerif.Driver.Replay
 import CdsVerif.Algo.Spin.Model
+import CdsVerif.Algo.Ring.Model
 open CdsVerif.Driver
 
 partial def lcLoop (h : IO.FS.Stream) (st : LcState) : IO Unit := do
@@ -71,6 +72,11 @@ def main (args : List String) : IO UInt32 := do
   | ["replay", "spin"] =>
     replayLoop stdin CdsVerif.Algo.Spin.model (fun _ => CdsVerif.Algo.Spin.init)
       (fun loc => loc.startsWith "L") (fun _ => true) none
+    return 0
+  | ["replay", "ring"] =>
+    -- initial state from the header words `cap=<capacity()>` and (optional) `rot=<warm-up rotations>`
+    replayLoop stdin CdsVerif.Algo.Ring.model (fun cfg => CdsVerif.Algo.Ring.initCfg cfg)
+      (fun loc => loc == "front" || loc == "back") (fun _ => true) none
     return 0
   | _ =>
     IO.eprintln "usage: cdsdriver lincheck|replay <model>|eval <fn>"
